@@ -6,7 +6,8 @@ every severity (fatal in a sub-fork, it terminates the process) and the destinat
   sections   every set of <= 2 entries over facility {f1, f2, *} x 16 severity expressions (names, lists, ranges,
              '*', and four invalid forms) x destinations {file:A, file:B, (file:A, file:B)}
   reloads    every ordered pair (thorough: triple) of sections of a sub-universe; messages are emitted after the
-             last reload - the routing must be that of the last section only
+             last reload - the routing must be that of the last section only; one entry edited in place through
+             every pair / triple of destination values (single, one-item list, list, empty list, missing)
 Oracle: reference router written from the statement; every line of every file must have the documented shape and
 carry the facility and severity of the message whose tag it shows.
 """
@@ -178,6 +179,20 @@ def main(tier):
         for keep in ((x,), (y,)):
             seqs.append((two, keep))
             seqs.append((keep, keep, two, keep))
+    # one entry edited in place: every ordered pair (also after an unchanged reload) and every triple of values of one key - a single destination, a
+    # one-item list, a two-item list, the empty list ( ), or the entry missing - alone or beside an entry that never changes
+    DV = [('A',), ('B',), ('=A',), ('A', 'B'), (), None]
+    for fac, ex in (('f1', 'info'), ('*', '>=warning')):
+        for ctx in ((), (('f2', '*', ('B',)),)):
+            mk = lambda d: ctx + (((fac, ex, d),) if d is not None else ())
+            for d1, d2 in itertools.product(DV, repeat=2):
+                if d1 != d2:
+                    seqs.append((mk(d1), mk(d2)))
+                    seqs.append((mk(d1), mk(d1), mk(d2)))
+            if (fac, bool(ctx)) == ('f1', True) or not quick:
+                for d1, d2, d3 in itertools.product(DV, repeat=3):
+                    if d1 != d2 and d2 != d3:
+                        seqs.append((mk(d1), mk(d2), mk(d3)))
     npair = len(seqs) - nsingle
     if not quick:
         small = base[:12]
